@@ -119,6 +119,8 @@ def add_proc(table, path, p, kindname=None, with_perm=False):
         d["bindc"] = lexer.squeeze(p.bindC)
     if with_perm:
         d["permission"] = p.permission
+    if hasattr(p, "calls"):
+        d["calls"] = sorted(_call_name(c) for c in p.calls)
     _put(table, pp, d)
     for a in p.args:
         if isinstance(a, str):
@@ -190,6 +192,14 @@ def add_scope_contents(table, up, u, module_level):
             add_var(table, pp, v, "variable", with_perm=False)
 
 
+def _call_name(c):
+    if isinstance(c, str):
+        return c.lower()
+    if isinstance(c, (list, tuple)):
+        return "%".join(c).lower()
+    return getattr(c, "name", str(c)).lower()
+
+
 def add_unit(table, path, u, kind):
     name = u.name or ""
     if kind == "blockdata" and name == "<em>unnamed</em>":
@@ -199,6 +209,8 @@ def add_unit(table, path, u, kind):
     if kind == "submodule":
         d["ancestor"] = _name_of(u.ancestor_module)
         d["parent_sub"] = _name_of(u.parent_submodule)
+    if hasattr(u, "calls"):
+        d["calls"] = sorted(_call_name(c) for c in u.calls)
     _put(table, up, d)
     add_scope_contents(table, up, u, module_level=kind in ("module", "submodule"))
 
@@ -228,11 +240,11 @@ def snapshot_before_correlate(project):
         walk(f)
 
 
-def tree(project):
+def tree(project, strip_ext=False):
     """Canonical table path -> attributes for every file of the project."""
     table = {}
     for f in project.files:
-        root = "file:" + f.name.lower()
+        root = "file:" + (f.name.rsplit(".", 1)[0] if strip_ext else f.name).lower()
         _put(table, root, {"kind": "file", "doc": docwords(f)})
         for m in f.modules:
             add_unit(table, root, m, "module")
